@@ -78,7 +78,7 @@ def code_of(node) -> str:
 def from_cst(n):
     """libcst expression -> tree; None when the expression is outside the modelled fragment"""
     p = len(n.lpar) > 0 if hasattr(n, "lpar") else False
-    if isinstance(n, cst.Call) and isinstance(n.func, cst.Attribute) and isinstance(n.func.value, cst.Name) and n.func.attr.value == "startswith" and len(n.args) == 1:
+    if isinstance(n, cst.Call) and isinstance(n.func, cst.Attribute) and isinstance(n.func.value, cst.Name) and n.func.attr.value in ("startswith", "endswith") and len(n.args) == 1:
         v = n.args[0].value
         ps = [code_of(el.value) for el in v.elements] if isinstance(v, cst.Tuple) else [code_of(v)]
         return {"k": "call", "r": n.func.value.value, "ps": ps, "p": p}
